@@ -689,6 +689,8 @@ func checkC14(p *Prog, r *Report) {
 	ruleJoinedTransactions(p, r)
 	ruleSinglePass(p, r)
 	ruleStickyState(p, r, "C14", map[string]bool{"cisco": true, "linux": true}, 8)
+	r.rule("R14.g", "The route delete / replace decisions of linux.diffRoutes keep their audited controlling conditions (tables/guards.tsv rows for C14): an old route is joined with the new one only for the same destination (address and prefix length), and deleted only while it is still marked present and not kept.")
+	ruleGuardTable(p, r, "R14.g", "C14")
 	r.Trusted = []string{"go/ssa, call graph"}
 	r.NotDec = "packet-level verdict of each intermediate ACL; the move-inside-block logic itself; membership edits of shared object-groups (excluded by the property)"
 }
